@@ -292,7 +292,8 @@ impl RangeRecord {
 
 impl DeltaFormat {
     pub(crate) fn value_count(self, start_size: u16, end_size: u16) -> usize {
-        let range_len = end_size.saturating_add(1).saturating_sub(start_size) as usize;
+        // compute in usize: end_size + 1 does not fit in u16 when end_size is 0xFFFF
+        let range_len = (end_size as usize + 1).saturating_sub(start_size as usize);
         let val_per_word = match self {
             DeltaFormat::Local2BitDeltas => 8,
             DeltaFormat::Local4BitDeltas => 4,
